@@ -458,9 +458,6 @@ def oracle(cfg, case, obs):
     failed = 0
     for i, (k, o, d) in enumerate(items):
         rep = obs['replies'].get(i)
-        if k in ('N', 'M'):
-            if rep is not None:
-                bad.append(('c03:notification-answered', f'item {i} {o}: a notification got {rep}'))
         overran = fin[i] is None
         if not live(i):
             continue
@@ -494,8 +491,11 @@ def oracle(cfg, case, obs):
         bad.append(('c03:answered-twice', f'ids {obs["dup"]} answered more than once'))
     if obs['malformed']:
         bad.append(('c03:ill-formed-reply', str(obs['malformed'])[:200]))
-    if batch_members and batch_live and len(obs['batches']) != 1:
-        bad.append(('c03:batch-responses', f'{len(obs["batches"])} batch responses for one request batch'))
+    # a response that answers no request at all (a notification has no id to answer to)
+    asked = {i for i, it in enumerate(items) if it[0] in ('R', 'B')} | {777777}
+    stray = [r for j, r in obs['replies'].items() if j not in asked]
+    if stray and not (cutter is not None and items[cutter][1][0] in OUTSIDE):
+        bad.append(('c03:notification-answered', f'responses that answer no request: {stray}'[:300]))
     # ---- survival / disconnection
     if cutter is None:
         if obs['probe'] is not True:
@@ -833,7 +833,7 @@ def explore(ctx, res, deep):
         evaluate(ctx, cases, res)
         res['scopes'][name] = len(cases)
     if not unexpected(ctx, res):
-        n = (60000 if ctx.tier == 'thorough' else 8000) if deep else 1500
+        n = (200000 if ctx.tier == 'thorough' else 8000) if deep else 1500
         evaluate(ctx, [random_case(ctx.rng) for _ in range(n)], res)
         res['scopes']['generated'] = res['scopes'].get('generated', 0) + n
 
